@@ -52,6 +52,8 @@ pub struct OwnerRec {
     /// as_ref was told to panic
     pub panicked: bool,
     pub lying: bool,
+    /// the owner's destructor was told to panic
+    pub drop_panics: bool,
 }
 
 #[derive(Clone, Copy, Debug, PartialEq, Eq)]
@@ -120,6 +122,9 @@ pub struct World {
     /// did some step see >=2 live handles on one block
     pub saw_sharing: bool,
     pub check_leaks: bool,
+    /// lengths and capacities seen on handles in recent steps (also of handles that are gone by
+    /// now): the generator likes to bring a handle back to exactly such a value
+    pub recent_lens: Vec<usize>,
 }
 
 pub fn in_static(ptr: usize, len: usize) -> bool {
@@ -137,6 +142,7 @@ impl World {
             probes: Probes::default(),
             saw_sharing: false,
             check_leaks: true,
+            recent_lens: Vec::new(),
         }
     }
 
@@ -302,6 +308,18 @@ impl World {
             self.v(props, &format!("alloc:{}", kind), m);
         }
 
+        for s in self.slots.values() {
+            let v = s.view();
+            for t in [v.len, v.cap] {
+                if t > 0 && t <= (1 << 16) && !self.recent_lens.contains(&t) {
+                    self.recent_lens.push(t);
+                }
+            }
+        }
+        if self.recent_lens.len() > 48 {
+            let cut = self.recent_lens.len() - 48;
+            self.recent_lens.drain(..cut);
+        }
         let ids: Vec<usize> = self.slots.keys().copied().collect();
         let mut regions: Vec<(usize, usize, usize, u8)> = Vec::new(); // (start,end,id,kind)
         let mut readable: Vec<usize> = Vec::new();
@@ -506,7 +524,16 @@ impl World {
             if let Some(s) = self.slots.remove(&id) {
                 self.step += 1;
                 alloc::set_op(1_000_000 + self.step as u64);
-                drop(s);
+                let origin = s.origin;
+                if let Err(p) = std::panic::catch_unwind(std::panic::AssertUnwindSafe(move || drop(s))) {
+                    let msg = rt::panic_message(&*p);
+                    let ok = msg.contains("SimOwner: drop told to panic") && matches!(origin, Origin::Owner(oi) if self.owners[oi].drop_panics);
+                    if ok {
+                        self.probes.hit("owner_drop_panic");
+                    } else {
+                        self.v(&["C01", "C03"], "unexpected-panic", format!("final drop of h{} panicked: {}", id, msg));
+                    }
+                }
                 self.check_invariants(None);
             }
         }
